@@ -97,6 +97,74 @@ def folder(ctx) -> Folder:
     return ctx._folder
 
 
+def public_entry_points(ctx, rule, pairs):
+    """The package-level spellings (periodictable.formula, periodictable.neutron_sld, ...) are the module functions: whatever
+    is passed - positionally or by keyword - reaches the module function under the same parameter, the result is handed back
+    as it is, and every request is a new request (nothing is remembered between calls).  Decided by calling the wrapper in
+    the interpreter with the module function replaced by a recorder."""
+    from ptstat.symx import Interp
+    from ptstat.symval import SymRaise
+    import sympy as _sp
+    for name, target in pairs:
+        if not ctx.src.has_func(f"__init__.{name}"):
+            r_ = ctx.src.resolve("__init__", name)
+            if r_ and r_[0] == "func" and ctx.src.func(r_[1]).qual == ctx.src.func(target).qual:
+                ctx.ok(rule, f"periodictable.{name} is {target} itself", site=fsite(ctx, target))
+                continue
+            raise AnalysisError(f"periodictable.{name} is not a function of the package __init__ nor the module function")
+        site = fsite(ctx, f"__init__.{name}")
+        tq = ctx.src.func(target).qual
+        tnode = ctx.src.func(tq).node
+        params = [a.arg for a in tnode.args.posonlyargs + tnode.args.args]
+        I = Interp(ctx.src)
+        calls = []
+
+        def recorder(I_, args, kw, _calls=calls, _tq=tq):
+            _calls.append(I_.bound(_tq, list(args), dict(kw)))
+            return I_.new_obj(f"result{len(_calls)}")
+        I.stubs[tq] = recorder
+        wrapper = I.global_name("__init__", name)
+        vals = {p_: _sp.Symbol(f"arg_{p_}") for p_ in params}
+        forms = [([vals[p_] for p_ in params[:k]], {}) for k in range(1, len(params) + 1)]
+        forms += [([vals[params[0]]], {p_: vals[p_]}) for p_ in params[1:]]
+        if tnode.args.vararg is not None:
+            extra = [_sp.Symbol(f"extra{i}") for i in range(3)]
+            forms.append(([vals[p_] for p_ in params] + extra, {}))
+        # the first argument is most often a formula string: the same forms again with a string in that place
+        sv = dict(vals)
+        sv[params[0]] = "H2O"
+        forms += [(["H2O"] + [sv[p_] for p_ in params[1:k]], {}) for k in range(1, min(len(params), 3) + 1)]
+        forms += [(["H2O"], {p_: sv[p_]}) for p_ in params[1:3]]
+        bad = None
+        for args, kw in forms:
+            want = dict(zip(params, args))
+            want.update(kw)
+            if len(args) > len(params):
+                want = I.bound(tq, list(args), dict(kw))
+            for attempt in (1, 2):
+                n0 = len(calls)
+                try:
+                    res = I.call(wrapper, list(args), dict(kw))
+                except (SymRaise, AnalysisError) as exc:
+                    bad = (args, kw, f"raises {exc}")
+                    break
+                if len(calls) != n0 + 1:
+                    bad = (args, kw, f"request {attempt} with the same arguments does not reach {target}" if attempt == 2 else f"{target} is not called exactly once")
+                    break
+                got = calls[-1]
+                if set(got) != set(want) or any(got[k_] is not want[k_] and got[k_] != want[k_] for k_ in want):
+                    bad = (args, kw, f"{target} receives {_s(got, 200)} instead of {_s(want, 200)}")
+                    break
+                if not (hasattr(res, "name") and getattr(res, "name", "") == f"result{len(calls)}"):
+                    bad = (args, kw, f"the result of request {attempt} is not what {target} returned for it ({_s(res, 60)})")
+                    break
+            if bad:
+                break
+        ctx.check(bad is None, rule, f"periodictable.{name}(...) is {target}(...): same parameters, same result object, every request anew",
+                  (f"called as {name}({', '.join([str(a) for a in bad[0]] + [f'{k}={v}' for k, v in bad[1].items()])}): {bad[2]}" if bad else ""),
+                  site, witness=(str(bad[:2]) if bad else None), sample={"call forms": len(forms)})
+
+
 def table_data(ctx, module, name):
     """A module-level data table as plain Python data: folded from its literal when it is one, otherwise (built or
     post-processed by package code at import: arrays, records ...) evaluated by the interpreter and converted back."""
